@@ -321,9 +321,15 @@ func (fr *Frame) binop(x *ssa.BinOp, st *State, reach string) Val {
 			return def(wrapTo(T, app("*", at, bt)))
 		case token.QUO:
 			fr.oblige("safety", "division by zero "+c.eng.srcText(x.Pos(), "binary"), reach, not(eq(bt, "0")), x.Pos())
+			if isUnsigned(opT) {
+				return def(app("div", at, bt))
+			}
 			return def(wrapTo(T, app("tdiv", at, bt)))
 		case token.REM:
 			fr.oblige("safety", "division by zero "+c.eng.srcText(x.Pos(), "binary"), reach, not(eq(bt, "0")), x.Pos())
+			if isUnsigned(opT) {
+				return def(app("mod", at, bt)) // both operands are non-negative
+			}
 			return def(app("trem", at, bt))
 		case token.SHL:
 			if k, ok := x.Y.(*ssa.Const); ok {
@@ -495,8 +501,8 @@ func (fr *Frame) indexAddr(x *ssa.IndexAddr, st *State, reach string) Val {
 	case *types.Slice:
 		s := c.termOf(base)
 		fr.oblige("safety", "index "+text, reach, and(app("<=", "0", idx), app("<", idx, app("sl_len", s))), x.Pos())
-		abs := c.smt.define("ix", "Int", app("+", app("sl_off", s), idx))
-		return Val{T: x.Type(), Addr: &Addr{Kind: akElem, Ref: app("sl_base", s), Idx: abs, RootT: u.Elem()}}
+		abs := c.smt.define("ix", "Int", elemIdx(slOff(c.smt, s), idx))
+		return Val{T: x.Type(), Addr: &Addr{Kind: akElem, Ref: slBase(c.smt, s), Idx: abs, RootT: u.Elem()}}
 	case *types.Pointer:
 		arr := u.Elem().Underlying().(*types.Array)
 		fr.oblige("safety", "index "+text, reach, and(app("<=", "0", idx), app("<", idx, fmt.Sprint(arr.Len()))), x.Pos())
@@ -747,7 +753,8 @@ func (fr *Frame) lookup(x *ssa.Lookup, st *State, reach string) Val {
 	mref := c.termOf(m)
 	has, val := c.mapRead(st, mt, mref, k)
 	elemT := mt.Underlying().(*types.Map).Elem()
-	v := Val{T: elemT, Term: c.smt.define("mv", c.sortOf(elemT), ite(has, val, c.zero(elemT)))}
+	c.mapZeroFact(has, val, elemT)
+	v := Val{T: elemT, Term: c.smt.define("mv", c.sortOf(elemT), val)}
 	c.heapTyped(elemT, v.Term)
 	c.closedHeap(st, elemT, v.Term, 0)
 	if x.CommaOk {
@@ -758,8 +765,10 @@ func (fr *Frame) lookup(x *ssa.Lookup, st *State, reach string) Val {
 
 // mapRead returns (present, stored value) of m[k].
 func (c *FnCtx) mapRead(st *State, mt types.Type, m, k string) (string, string) {
+	// Invariants of the map model: the nil map (reference 0) has no keys (heapSymbolAxioms; map
+	// writes never happen at 0), and a key that is absent holds the zero value (mapZeroFact).
 	dn, vn, _, _, _ := c.mapHeaps(mt)
-	has := and(not(eq(m, "0")), sel(sel(c.heapGet(st, dn, c.heapSorts[dn]), m), k))
+	has := sel(sel(c.heapGet(st, dn, c.heapSorts[dn]), m), k)
 	val := sel(sel(c.heapGet(st, vn, c.heapSorts[vn]), m), k)
 	return has, val
 }
@@ -773,6 +782,20 @@ func (fr *Frame) mapUpdate(x *ssa.MapUpdate, st *State, reach string) {
 	c.mapWrite(st, x.Map.Type(), m, k, v)
 }
 
+// mapZeroFact: reading an absent key yields the zero value (ground instance of the model
+// invariant "absent keys hold zero", kept by make, delete and every write).
+func (c *FnCtx) mapZeroFact(has, val string, elemT types.Type) {
+	if strings.Contains(has, "q.") || strings.Contains(val, "q.") {
+		return
+	}
+	key := "zero|" + val
+	if c.typedSeen[key] {
+		return
+	}
+	c.typedSeen[key] = true
+	c.smt.assume(implies(not(has), eq(val, c.zero(elemT))), "")
+}
+
 func (c *FnCtx) mapWrite(st *State, mt types.Type, m, k, v string) {
 	dn, vn, ln, _, _ := c.mapHeaps(mt)
 	d := c.heapGet(st, dn, c.heapSorts[dn])
@@ -784,12 +807,14 @@ func (c *FnCtx) mapWrite(st *State, mt types.Type, m, k, v string) {
 }
 
 func (c *FnCtx) mapDelete(st *State, mt types.Type, m, k string) {
-	dn, _, ln, _, _ := c.mapHeaps(mt)
+	dn, vn, ln, _, _ := c.mapHeaps(mt)
 	d := c.heapGet(st, dn, c.heapSorts[dn])
 	l := c.heapGet(st, ln, c.heapSorts[ln])
-	has := and(not(eq(m, "0")), sel(sel(d, m), k))
+	vv := c.heapGet(st, vn, c.heapSorts[vn])
+	has := sel(sel(d, m), k)
 	c.heapSet(st, ln, c.heapSorts[ln], ite(has, sto(l, m, app("-", sel(l, m), "1")), l))
 	c.heapSet(st, dn, c.heapSorts[dn], ite(has, sto(d, m, sto(sel(d, m), k, "false")), d))
+	c.heapSet(st, vn, c.heapSorts[vn], ite(has, sto(vv, m, sto(sel(vv, m), k, c.zero(mt.Underlying().(*types.Map).Elem()))), vv))
 }
 
 // range over a map: ghost visited set ---------------------------------------------------------------
